@@ -556,4 +556,17 @@ theorem published_pairwise (calls : List Call) : ∀ (hist : List Call) (s : St)
         have := published_ge cs _ _ hi' snap hsn
         rw [h3] at this; simp at this; omega
 
+/-- reachable store states -/
+def Reachable (s : St) : Prop := ∃ calls, s = finalState St.init calls
+
+theorem reachable_inv {s : St} (h : Reachable s) : ∃ hist, Inv hist s := by
+  obtain ⟨calls, rfl⟩ := h
+  suffices ∀ (cs hist : List Call) (s : St), Inv hist s → ∃ hist', Inv hist' (finalState s cs) from
+    this calls [] St.init (inv_init [])
+  intro cs
+  induction cs with
+  | nil => intro hist s hi; exact ⟨hist, hi⟩
+  | cons c t ih => intro hist s hi; exact ih _ _ (step_inv hi c).1
+
+
 end Rxn.Store
